@@ -104,9 +104,10 @@ func TestC11_P_Sizes(t *testing.T) {
 		if rapid.IntRange(0, 4).Draw(t, "pieceWrites") == 0 {
 			st.PieceWrites = rapid.SampledFrom([]int{1, 7, 64, 512}).Draw(t, "pieceSize")
 		}
-		if (kind == "file" || kind == "twice") && rapid.IntRange(0, 5).Draw(t, "rawEnvelope") == 0 {
-			// a link system whose raw codec frames the leaf blocks: sizes are about encoded lengths, not content lengths
-			st.RawEnvelope = rapid.SampledFrom([]int{1, 8, 100}).Draw(t, "envelopeLen")
+		if (kind == "file" || kind == "twice") && rapid.IntRange(0, 4).Draw(t, "rawEnvelope") == 0 {
+			// a link system whose raw codec frames the leaf blocks: sizes are about encoded lengths, not content lengths;
+			// the framing may be of fixed length or depend on the content (a uvarint length prefix)
+			st.RawEnvelope = rapid.SampledFrom([]int{1, 8, 100, RawEnvelopeUvarint, RawEnvelopeUvarint}).Draw(t, "envelopeLen")
 			ev.Count("raw-envelope", 1)
 		}
 		var root cid.Cid
